@@ -802,6 +802,9 @@ func keyless(p []byte) []byte { return p }
 // control handler's reply buffer comes from the unpooled path as well as from
 // the shared byte pool's 128 and 256 classes.
 func pingOf(s spec, i int) []byte {
+	if (s.id+i)%7 == 3 {
+		return nil // (an empty ping: the reply is built from the package's precompiled frame)
+	}
 	p := []byte(fmt.Sprintf("ping-%d-%d.", s.id, i))
 	n := []int{len(p), 63, 100, 125, 59, 64}[(s.id+i)%6]
 	for k := 0; len(p) < n; k++ {
